@@ -1,9 +1,11 @@
 import logging
 import itertools
 import math
+import re
 import signal
 from enum import Enum
 from qbee import grammar
+from qbee.exceptions import SyntaxError as QbSyntaxError
 from pyparsing.exceptions import ParseException
 from .instrs import op_code_to_instr
 from .utils import format_number
@@ -1263,6 +1265,12 @@ class QvmCpu:
             value = float(literal.eval())
         except ParseException:
             value = 0.0
+        except QbSyntaxError:
+            # a numeral that is not a legal literal of any type
+            # (99999999999, 1E400, 5$): VAL is its DOUBLE value
+            m = re.match(r'\s*[+-]?(\d+\.?\d*|\.\d+)([de][+-]?\d+)?',
+                         string.lower())
+            value = float(m.group(0).replace('d', 'e')) if m else 0.0
         self.push(CellType.DOUBLE, value)
 
     def _exec_sign(self):
